@@ -10,7 +10,7 @@ From PG Require Import Common.Tactics Model.Typing Proofs.TypingBasics Proofs.Ty
                        Proofs.TypingCompat Proofs.TypingExtend Proofs.TypingDict Proofs.TypingApplyDict
                        Proofs.TypingCompatDict Proofs.TypingUnion Proofs.TypingUnionCompat Proofs.TypingTheorems
                        Proofs.TypingExtendFrozen Proofs.TypingUnionExtend Proofs.TypingExtendDict
-                       Proofs.TypingPyEq Proofs.TypingExtendFrozenBase.
+                       Proofs.TypingPyEq Proofs.TypingExtendFrozenBase Proofs.TypingUnionChild.
 Local Open Scope Z_scope.
 
 (* Applying a spec to a value it accepts yields a value it accepts again and maps to itself:
@@ -241,3 +241,18 @@ Theorem C04_extend_frozen_base_partial : forall q c b c',
   compat q b c' = true /\ (forall v, total v = true -> conforms c' v -> accepts b v).
 Proof. exact extend_frozen_base. Qed.
 Print Assumptions C04_extend_frozen_base_partial.
+
+(* A Union child extending a Union base with a safe dispatch: every candidate of the child (simple,
+   unfrozen) extends the base candidate of its class; the base Union is compatible with the
+   extended Union and accepts every value of it. *)
+Theorem C04_extend_union_child_partial : forall q cs m bcs mb c',
+  no_quirks q -> frozen m = false -> frozen mb = false ->
+  forallb cand_simple cs = true -> Forall goodf cs ->
+  union_safe (SUnion bcs mb) = true -> Forall basef bcs ->
+  wf (SUnion bcs mb) -> keys_ok (SUnion bcs mb) = true -> sizes_ok (SUnion bcs mb) = true ->
+  (forall x, In x bcs -> noneable (mods_of x) = true -> noneable mb = true) ->
+  extend q (SUnion cs m) (SUnion bcs mb) = Ok c' ->
+  compat q (SUnion bcs mb) c' = true /\
+  (forall v, total v = true -> conforms c' v -> accepts (SUnion bcs mb) v).
+Proof. exact extend_union_child. Qed.
+Print Assumptions C04_extend_union_child_partial.
